@@ -169,6 +169,13 @@ class C17(Prop):
                  "container": fl if k % 2 == 0 else it, "zcontainer": it if k % 2 == 0 else fl, "big": False,
                  "kind": rng.choice(["hqs", "hqs", "hes"]), "h": rng.choice([-1, -2, -3, 3, 5, 7, -1.0]), "level": rng.choice([0.5, 0.25, 0.8])}
             yield c
+        for k in range(40 if tier == "quick" else 800):
+            # decompose with a quantile score: the marginal (lower / upper empirical quantile of y_obs) must not depend on the
+            # container of y_obs - levels and lengths with n * level not an integer
+            n = rng.choice([5, 6, 7, 9, 10, 11])
+            yield {"stream": "decompose", "y": [rng.randint(1, 12) for _ in range(n)], "z": [rng.randint(1, 12) for _ in range(n)], "w": None,
+                   "container": rng.choice(["pl_float", "pl_int", "pl_uint32", "list_int", "tuple_int", "np_int32"]), "big": False,
+                   "kind": "pinball", "h": 1, "level": rng.choice([0.25, 0.8, 0.75])}
         N = 1500 if tier == "quick" else 25000
         for k in range(N):
             ep = ENTRY[k % len(ENTRY)]
